@@ -127,6 +127,7 @@ func checkDefs() map[string]*CheckDef {
 				r := []RunSpec{
 					{Name: "step-lemmas", Pkg: ioc + "/container/support", Entry: "VerifC04Step", MustCover: []string{"creation failed", "creation succeeded", "op lookup", "op publish"}},
 					mc("histories-n2", "VerifC04B", map[string]int{"N": 2, "POINTS": 1, "FAULTS": 1, "LOOKUPS": 2, "LAZY": 1}, "start failed", "lookup after failure reports an error"),
+					mc("histories-n2-panicking", "VerifC04B", map[string]int{"N": 2, "POINTS": 1, "FAULTS": 1, "LOOKUPS": 2, "LAZY": 1, "PANICS": 1}, "start failed", "a creation failed by panicking"),
 					mc("early-reference-is-what-gets-published", "VerifC03", map[string]int{"N": 2, "POINTS": 5}, "start ok", "wrapped"),
 					mc("nested-creations-from-init", "VerifC05", map[string]int{"N": 2, "POINTS": 1, "LAZY": 1, "LOOKUP": 1, "BARE": 1}, "start ok"),
 				}
@@ -222,6 +223,7 @@ func checkDefs() map[string]*CheckDef {
 					rh("re-attempt-after-transient-failure", "VerifC06", map[string]int{"K": 2, "PORDER": 0, "FLAKY": 1, "PRESET": 0}, "start ok", "creation re-attempted after a transient failure"),
 					rh("candidates-nominated-twice", "VerifC06", map[string]int{"K": 2, "PORDER": 0, "DUPPROC": 1, "PRESET": 0}, "start ok", "candidates nominated by two processors"),
 					rh("sealed-interface", "VerifC06Sealed", nil, "sealed interface"),
+					rh("component-at-the-holders-address", "VerifC06FirstField", nil, "component at the holder's address"),
 					rh("func-returns", "VerifC06Returns", map[string]int{"K": tierPick(tier, 2, 3)}, "both func points populated"),
 					rh("declining-user-processor", "VerifC06", map[string]int{"K": 1, "PORDER": 0, "PROC0": 1, "PRESET": 0}, "start ok", "start failed"),
 					rh("same-named-types", "VerifC06SameName", map[string]int{"K": tierPick(tier, 2, 3)}, "two same-named interface types"),
@@ -315,7 +317,7 @@ func checkDefs() map[string]*CheckDef {
 					{Name: "stage-order", Pkg: prc, Entry: "VerifC18Order", Params: map[string]int{"EXTRA": tierPick(tier, 1, 2)}, MustCover: []string{"sorted"}},
 					{Name: "expression-data-flow", Pkg: prc, Entry: "VerifC18Expr", MustCover: []string{"evaluated", "literal text before the expression", "placeholder nested in a placeholder inside the expression"}},
 					{Name: "numeric-expression-family", Pkg: prc, Entry: "VerifC18ExprNumbers", MustCover: []string{"numeric expression evaluated", "boolean result"}},
-					{Name: "validation-glue", Pkg: prc, Entry: "VerifC18Validate", Params: map[string]int{"N": tierPick(tier, 3, 4)}, MustCover: []string{"constraint violated", "constraint satisfied", "validated value bound by prefix"}},
+					{Name: "validation-glue", Pkg: prc, Entry: "VerifC18Validate", Params: map[string]int{"N": tierPick(tier, 3, 4)}, MustCover: []string{"constraint violated", "constraint satisfied", "validated value bound by prefix", "undefined validation rule"}},
 					{Name: "pointer-validation", Pkg: prc, Entry: "VerifC18ValidatePointer", MustCover: []string{"pointer constraint violated", "pointer constraint satisfied"}},
 					{Name: "several-expressions", Pkg: prc, Entry: "VerifC18MultiExpr", MustCover: []string{"several expressions in one tag"}},
 					{Name: "struct-validation", Pkg: prc, Entry: "VerifC18ValidateStruct", MustCover: []string{"struct constraint violated", "struct constraint satisfied", "only the required nested struct is empty"}},
@@ -353,7 +355,7 @@ func checkDefs() map[string]*CheckDef {
 	)
 	// the integration graph run (real App.initiate + run) is cheap and serves several properties
 	graphRun := func(tier string, coarse bool) RunSpec {
-		r := RunSpec{Name: "integration-graph", Pkg: app, Entry: "VerifAppGraph", MustCover: []string{"start ok", "an Init fails", "required dependency missing", "a point wired by hand before start-up", "a by-name point holding a built-in default before start-up"}, Opts: ExecOpts{Sched: "seq", Termination: true, MaxSteps: 3000000}}
+		r := RunSpec{Name: "integration-graph", Pkg: app, Entry: "VerifAppGraph", MustCover: []string{"start ok", "an Init fails", "required dependency missing", "a point wired by hand before start-up", "a by-name point holding a built-in default before start-up", "a processor answers nil before initialization"}, Opts: ExecOpts{Sched: "seq", Termination: true, MaxSteps: 3000000}}
 		if coarse {
 			r.Name = "integration-graph-orders"
 			r.Params = map[string]int{"FIXED": 1}
